@@ -1,4 +1,5 @@
 from collections.abc import Iterable, Sequence
+from itertools import islice
 from typing import Any, Callable, Generic, Optional, TypeVar
 
 from ..conversion.request_cls import CoercerRequest, LinkingRequest
@@ -36,10 +37,16 @@ CallableT = TypeVar("CallableT", bound=Callable)
 class LocatedRequestCallableRecursionResolver(RecursionResolver[LocatedRequest, CallableT], Generic[CallableT]):
     def __init__(self) -> None:
         self._loc_to_stub: dict[AnyLoc, FuncWrapper] = {}
+        self._outer_depth: Optional[int] = None
 
     def track_request(self, request: LocatedRequest) -> Optional[Any]:
+        if self._outer_depth is None:
+            # A retort placed in a recipe gets a request with the loc stack of the outer retort.
+            # The requests of these locations are tracked by the outer resolver, a stub made for them here is never bound
+            self._outer_depth = len(request.loc_stack) - 1
+
         last_loc = request.last_loc
-        if sum(loc == last_loc for loc in request.loc_stack) == 1:
+        if sum(loc == last_loc for loc in islice(request.loc_stack, self._outer_depth, None)) == 1:
             return None
 
         if last_loc in self._loc_to_stub:
